@@ -20,15 +20,11 @@ NOTES = ("Model-based verification with explicit TLA+ specifications; see DESIGN
 
 NOT_APPLICABLE = {}
 
-CHECKS = {
-    "C16": {
-        "text": "ClientID.tla (decision procedure written from the statement) is enumerated by TLC over every input of a finite universe "
-                "(6 protocols x 3 configured names x strict x 29 client names x 1445 DoH paths; ~2e5 inputs, 7 invariants of the statement checked on the spec); "
-                "every vector is replayed into the real HandleBefore and the outcome must be in the spec's admissible set; "
-                "a random driver over a larger universe is recorded and validated by TraceClientID.tla.",
-        "design_ref": "DESIGN.md section 4 C16",
-        "note": "Trusted: TLC, conc()/abs() of zz_verif_c16_test.go, the harness's own label classifier. Handler level (fake TLS/QUIC connection states), no sockets. "
-                "Case handling of the configured server name is not asserted (statement silent).",
-        "technique": "TLA+ spec enumerated by TLC; exhaustive vector replay into real code + TLC trace validation",
-    },
-}
+import glob as _glob, importlib.util as _ilu, os as _os
+
+CHECKS = {}
+for _f in sorted(_glob.glob(_os.path.join(_os.path.dirname(_os.path.abspath(__file__)), "reg_c*.py"))):
+    _spec = _ilu.spec_from_file_location(_os.path.basename(_f)[:-3], _f)
+    _m = _ilu.module_from_spec(_spec)
+    _spec.loader.exec_module(_m)
+    CHECKS[_m.PROPERTY] = _m.ENTRY
